@@ -708,3 +708,42 @@ def check_c08(tier, seed, replay=None, selftest=False):
                          "one, or at a chosen alignment between canaries; inputs are checksummed before/after; hash segments are unmapped as soon "
                          "as the job is handed back; behaviours = the call spaces of C01-C10 (every residue of every vector-width tail) + "
                          "zero-length CBC", extra=cbc0)
+
+
+@reg("C14")
+def check_c14(tier, seed, replay=None, selftest=False):
+    chk = verif.Check("C14", "exploration", tier, seed)
+    props = {"C14"}
+    exe = build.build_driver("aes", AES_SRCS)
+    if replay:
+        lines = [x for x in open(replay).read().splitlines() if x and not x.startswith("#")]
+        if "dump 1" not in lines:
+            lines = ["dump 1"] + lines
+        outs = run_jobs([{"name": "replay", "behaviours": [lines]}], exe, "TraceAes")
+        collect(chk, outs, props, marker="Mark")
+        chk.cov.update({"evaluations": 1, "distinct_nontrivial": 2, "rule": "replay", "samples": [replay]})
+        return chk.finish()
+    rng = random.Random(seed * 101 + 14)
+    k = 1 if tier == "quick" else 10
+    aj = {}
+    aj.update(gen_aes.gcm_oneshot_behaviours(rng, 6 * k))
+    aj.update(gen_aes.gcm_stream_jobs(rng, 3 * k))
+    aj.update(gen_aes.xts_jobs(rng, 6 * k, short=False))
+    aj.update(gen_aes.cbc_jobs(rng, 6 * k))
+    aj.update(gen_aes.kexp_jobs(rng, 4 * k))
+    jobs = merge_jobs(aj)
+    for j in jobs:
+        j["behaviours"] = [["dump 1"]] + j["behaviours"]
+        j["prelude"] = "dump 1\n"
+    outs = run_jobs(jobs, exe, "TraceAes")
+    nb, ne = collect(chk, outs, props, marker="Mark")
+    chk.cov["evaluations"] = ne
+    chk.cov["distinct_nontrivial"] = len({hashlib.sha1("\n".join(b).encode()).hexdigest() for j in jobs for b in j["behaviours"]})
+    chk.cov["rule"] = ("default SAFE_DATA build; every AES entry point x family x length class of the C02/C03/C04/C07 call spaces; after each call "
+                       "the trampoline dumps zmm0-31 and every 16-byte granule of the 64 KiB below the call that no longer holds the prefill; TLC "
+                       "computes the secrets from the spec (FIPS-197 round keys enc+dec of every key, raw key halves, GHASH key H, every 16-byte "
+                       "word of the caller's key_data, E(K2, tweak)) and searches the dump at every byte offset")
+    chk.cov["samples"] = [{"job": j["name"], "behaviour": j["behaviours"][-1]} for j in jobs[:3]]
+    chk.cov["traces_validated_against_impl"] = nb
+    chk.assumptions += ["constant (all-equal-byte) secrets are ignored", "mask registers k0-7 are not scanned (they cannot hold 16 key bytes)"]
+    return chk.finish()
